@@ -52,3 +52,11 @@ package module
 //@ extern func (StatusCollector).SetStatus(c StatusCollector, rcptTo string, err error)
 //@ extern func (DeliveryTarget).Start(t DeliveryTarget, ctx context.Context, msgMeta *MsgMetadata, mailFrom string) (d Delivery, err error)
 //@   ensures err == nil ==> d != nil
+
+// ---- tables (C04, C14, C15): a table is a function of (table, key) for the duration of a call (assumption A-iface).
+//@ uninterp func tblOK(t Table, key string) bool
+//@ uninterp func tblErr(t Table, key string) error
+//@ uninterp func tblVal(t Table, key string) string
+//@ extern func (Table).Lookup(t Table, ctx context.Context, s string) (val string, ok bool, err error)
+//@   ensures ok == tblOK(t, s) && err == tblErr(t, s) && val == tblVal(t, s)
+//@ pure func tblHit(t Table, key string) bool = tblErr(t, key) == nil && tblOK(t, key)
